@@ -104,10 +104,107 @@ func (c *Cas) R1k() R1k {
 	return k
 }
 
-func Probe(f func(int) int) string {
+// ProbeRef: the observation of a plain-Go reference function.
+func ProbeRef(f func(int) int) string { return ProbeRefT(f, ShowInt) }
+
+func ProbeRefT[T any](f func(int) T, show func(T) string) string {
 	var b strings.Builder
 	for _, x := range Fn1Probes {
-		fmt.Fprintf(&b, "%d->%d ", x, f(x))
+		fmt.Fprintf(&b, "%d->%s ", x, show(f(x)))
 	}
 	return b.String()
+}
+
+// Probe: the observation of a library reader value: called on every probe argument and then on
+// every probe argument again in reverse order; the second call on an argument must return what the
+// first one returned and every result, kept as returned, must read the same after all later
+// calls (core/rerun.go). The string handed back is the one of the first pass.
+func Probe(f func(int) int) string { return ProbeT(f, ShowInt) }
+
+func ProbeT[T any](f func(int) T, show func(T) string) string {
+	c := Cur
+	keep := Kept[T]{}
+	first := make([]string, len(Fn1Probes))
+	var b strings.Builder
+	for i, x := range Fn1Probes {
+		r := f(x)
+		first[i] = show(r)
+		keep.Add(fmt.Sprintf("the call with argument %d", x), r, first[i])
+		fmt.Fprintf(&b, "%d->%s ", x, first[i])
+	}
+	if c != nil {
+		for i := len(Fn1Probes) - 1; i >= 0; i-- {
+			r := f(Fn1Probes[i])
+			s := show(r)
+			keep.Add(fmt.Sprintf("the second call with argument %d", Fn1Probes[i]), r, s)
+			if s != first[i] {
+				c.Fail(KeyRerun, "the same function value applied to %d returned %s the first time and %s when applied again", Fn1Probes[i], first[i], s)
+				return b.String()
+			}
+		}
+		c.W.Add("rerun.runs."+c.P.Pkg, int64(len(Fn1Probes)))
+		keep.Recheck(c, show)
+	}
+	return b.String()
+}
+
+// Run0: a fn0 value is run three times.
+func Run0[T any](m fp.Func0[T], show func(T) string) (T, string) {
+	c := Cur
+	keep := Kept[T]{}
+	r1 := m(fp.Unit{})
+	s1 := show(r1)
+	keep.Add("the first run", r1, s1)
+	if c != nil {
+		for _, what := range []string{"the second run", "the third run"} {
+			r := m(fp.Unit{})
+			s := show(r)
+			keep.Add(what, r, s)
+			if s != s1 {
+				c.Fail(KeyRerun, "the same fn0 value returned %s on the first run and %s on %s", s1, s, what)
+				return r1, s1
+			}
+		}
+		c.W.Add("rerun.runs."+c.P.Pkg, 2)
+		keep.Recheck(c, show)
+	}
+	return r1, s1
+}
+
+func Run0I(m fp.Func0[int]) int {
+	r, _ := Run0(m, ShowInt)
+	return r
+}
+
+// ObsEval: an Eval value is evaluated three times (Get, Run, Get).
+func ObsEval[T any](ev lazy.Eval[T], show func(T) string) (T, string) {
+	c := Cur
+	keep := Kept[T]{}
+	r1 := ev.Get()
+	s1 := show(r1)
+	keep.Add("the first evaluation", r1, s1)
+	if c != nil {
+		for i, what := range []string{"the second evaluation (lazy.Run)", "the third evaluation"} {
+			var r T
+			if i == 0 {
+				r = lazy.Run(ev)
+			} else {
+				r = ev.Get()
+			}
+			s := show(r)
+			keep.Add(what, r, s)
+			if s != s1 {
+				c.Fail(KeyRerun, "the same Eval value gave %s on the first evaluation and %s on %s", s1, s, what)
+				return r1, s1
+			}
+		}
+		c.W.Add("rerun.runs."+c.P.Pkg, 2)
+		keep.Recheck(c, show)
+	}
+	return r1, s1
+}
+
+func EvGet(ev EV) int {
+	r, _ := ObsEval(ev, ShowInt)
+	return r
 }
